@@ -192,9 +192,6 @@ end Coap.Sessions
 /-! ## reference counts against holders -/
 namespace Coap.Sessions
 
-/-- S: the number of holders of a session -/
-def St.holds (st : St) (sid : Nat) : Nat := st.holders.countP (fun h => h.sid == sid)
-
 structure HInv (st : St) : Prop where
   ref : ∀ s ∈ st.sessions, s.ref = st.holds s.sid
   live : ∀ h ∈ st.holders, ∃ s ∈ st.sessions, s.sid = h.sid
